@@ -71,6 +71,39 @@ def cases(tier):
     return out
 
 
+def big_cases(tier, seed):
+    """sizes and numbers of real files: digit-count steps up to 10^6, the chunk sizes servers really use (4 KiB, 64 KiB, the classes'
+    default), sizes that are exact multiples of the chunk, one to four range specs anywhere in the file"""
+    import random
+    rnd = random.Random(4200 + seed)
+    sizes = [999, 1000, 4096, 9999, 10000, 65536, 99999, 100000, 262144, 999999] if tier == "quick" else \
+        [999, 1000, 1001, 4095, 4096, 4097, 9999, 10000, 65535, 65536, 65537, 99999, 100000, 131072, 262144, 999999, 1000000]
+    out = []
+    n_per = 9 if tier == "quick" else 40
+    for size in sizes:
+        for _ in range(n_per):
+            chunk = rnd.choice([4096, 65536, 262144, size, max(1, size // 2), 1000])
+            iface = rnd.choice(["wsgi", "asgi", "zerocopy"])
+            k = rnd.choice([0, 1, 1, 2, 2, 3, 4])
+            specs = []
+            for _ in range(k):
+                kind = rnd.random()
+                edge = [0, 9, 10, 99, 100, 999, 1000, 9999, 10000, 99999, 100000, size - 1, size, size + 1, size // 2]
+                pick = lambda: max(0, rnd.choice(edge) if rnd.random() < 0.6 else rnd.randrange(size + 10))  # noqa
+                if kind < 0.6:
+                    a = pick()
+                    b = max(a, pick()) if rnd.random() < 0.9 else pick()
+                    specs.append(fl(a, b))
+                elif kind < 0.8:
+                    specs.append(fr(pick()))
+                else:
+                    specs.append(suf(max(1, pick())))
+            ifr = rnd.choice(["absent"] * 6 + ["etag", "staleEtag", "date"]) if specs else "absent"
+            out.append({"size": size, "chunk": chunk, "iface": iface, "method": rnd.choice(["GET", "GET", "GET", "HEAD"]), "specs": tuple(specs),
+                        "hasRange": bool(specs), "ifr": ifr, "bl": 13, "ctl": len(CT), "msglen": MSGLEN})
+    return out
+
+
 class Files:
     def __init__(self):
         self.dir = os.path.join(tlc.scratch(), "files")
@@ -175,7 +208,9 @@ def _parsed(c):
 
 def run(ctx):
     cs = cases(ctx.tier)
-    ctx.bounds = {"cases": len(cs)}
+    big = big_cases(ctx.tier, ctx.seed)
+    ctx.bounds = {"cases": len(cs), "large_cases": len(big)}
+    cs = cs + big
     ctx.rule = ("every case (size, chunk, interface, method, Range specs, If-Range kind) of FileResponse.tla executed on the "
                 "real classes against real files; non-trivial = 206 multipart, ranges clipped at the end, sizes that are a "
                 "multiple of the chunk or around a digit-count step, If-Range gating, 400/416")
